@@ -9,7 +9,9 @@ Driver for the follow-up work practice (several screening methods bound to one f
   fuday <date> [[site,outcome],...]   (outcome 0 complete 1 in progress 2 unattended; the list must be
                                        the model's own plan of the day, in order)    -> ok <state>
   tag <site> <date>                                                -> ok <state>
-  evs <i>                                                          -> ghost flag events of method i
+  evs <i>                                                          -> ghost flag events of method i:
+                          [site:rate:rateLong:route:recDate:day:first:tagAtFlag:[rates;..],..]
+  visits                                                           -> ghost visits [site:recDate:tagBefore:day:outcome,..]
   state = M<i> pool=[site:rate,..] inPool=<bits> first=<d|-> count=<n> | ... | queue=[cls:site:rate,..]
           inQueue=<bits> tag=[d,..] [err]         (pool in list order, queue in pop order)
 Rationals are written p/q in lowest terms.
@@ -55,7 +57,12 @@ def dump (s : DState) : String :=
 
 def showEv (e : FlagEv) : String :=
   let rt := match e.route with | .pool => "pool" | .instant => "instant"
-  s!"{e.site}:{showRat e.rate}:{rt}:{e.recDate}:{e.day}:{e.first}"
+  let rs := ";".intercalate (e.rates.map showRat)
+  s!"{e.site}:{showRat e.rate}:{showRat e.rateLong}:{rt}:{e.recDate}:{e.day}:{e.first}:{e.tagAtFlag}:[{rs}]"
+
+def showVisit (v : Visit) : String :=
+  let o := match v.outcome with | .complete => "c" | .inProgress => "p" | .unattended => "u"
+  s!"{v.site}:{v.recDate}:{v.tagBefore}:{v.day}:{o}"
 
 def parseOut (s : String) : Option (Nat × Outcome) := do
   match ← natList? s with
@@ -131,6 +138,7 @@ def step (s : DState) (toks : List String) : DState × String :=
       | some m => (s, "[" ++ ",".intercalate (m.evs.map showEv) ++ "]")
       | none => (s, "bad-op")
     | none => (s, "bad-op")
+  | ["visits"] => (s, "[" ++ ",".intercalate (s.sy.sh.visits.map showVisit) ++ "]")
   | _ => (s, "bad-op")
 
 def main : IO Unit := runDriver step {}
